@@ -459,9 +459,11 @@ def run_buf(tier, ev, verd):
         counts["behaviours_spec_marks_deadlocked"] += bool(c["deadlock"])
     stats["replayed"] = counts
     missing = [o for o in ALL_OPS if not counts["op_instances"].get(o)] + [k for k in KINDS if not counts["op_kinds"].get(k)]
-    need = ["Start", "Acquire", "Finish", "Blocked"] + (["Crit"] if not (disc["EqHold"] and disc["PushAtomic"]) else [])
+    # a thread can only be found blocked if some operation keeps a lock across a schedule point (== with EqHold)
+    need = ["Start", "Acquire", "Finish"] + (["Blocked"] if disc["EqHold"] else []) + \
+           (["Crit"] if not (disc["EqHold"] and disc["PushAtomic"]) else [])
     missing += [a for a in need if not counts["spec_actions"].get(a)]
-    if not counts["controller_steps"]["wake"]:
+    if disc["EqHold"] and not counts["controller_steps"]["wake"]:
         missing.append("wake step")
     if not counts["behaviours_with_both_eq_orders_racing"]:
         missing.append("A == B racing with B == A")
